@@ -1,7 +1,6 @@
 package main
 
 import (
-	"encoding/json"
 	"fmt"
 	"math/big"
 	"sync"
@@ -72,7 +71,7 @@ type c10Proof struct {
 }
 
 func runC10(o *cli.Opts, run *evid.Run) {
-	run.Rule("one case = one proof pushed through json.Marshal(&prover.Proof) -> independent reader (8 EVM-order coordinates must equal the points read by reflection) -> json.Unmarshal (must give the same points; valid proofs must still verify), and through documents written by an independent codec (minimal and zero-padded hex); " +
+	run.Rule("one case = one proof pushed through safeMarshal(&prover.Proof) -> independent reader (8 EVM-order coordinates must equal the points read by reflection) -> json.Unmarshal (must give the same points; valid proofs must still verify), and through documents written by an independent codec (minimal and zero-padded hex); " +
 		"proofs: real Groth16 proofs, thousands of re-randomised valid derivatives (about 15% have a coordinate shorter than 32 bytes), synthetic proofs from curve points with tiny coordinates; a sequential stream precedes the parallel sweep; non-trivial = distinct proof")
 	run.Assume("EIP-197 order A.x A.y B.x1 B.x0 B.y1 B.y0 C.x C.y", "gnark-crypto point arithmetic for re-randomisation and reflection on gnark's proof struct")
 	ps, err := sysutil.Setup("insertion", 3, 2)
@@ -153,7 +152,7 @@ func runC10(o *cli.Opts, run *evid.Run) {
 				return
 			}
 		}
-		text, err := json.Marshal(&prover.Proof{Proof: p.pt.ToProof()})
+		text, err := safeMarshal(&prover.Proof{Proof: p.pt.ToProof()})
 		if err != nil {
 			fail("marshal", "Marshal failed: "+err.Error(), sample)
 			return
@@ -174,7 +173,7 @@ func runC10(o *cli.Opts, run *evid.Run) {
 			text []byte
 		}{{"own", text}, {"foreign-hex", p.pt.ProofDoc("hex")}, {"foreign-padhex", p.pt.ProofDoc("padhex")}} {
 			var back prover.Proof
-			if err := json.Unmarshal(doc.text, &back); err != nil {
+			if err := safeUnmarshal(doc.text, &back); err != nil {
 				fail("decode/"+doc.name, fmt.Sprintf("decoding a proof with %d short coordinate(s) failed: %v", short, err), map[string]any{"json": string(doc.text)})
 				continue
 			}
@@ -206,7 +205,10 @@ func runC10(o *cli.Opts, run *evid.Run) {
 		c := proofs[0].pt.Coords()
 		c[i] = new(big.Int).Lsh(big.NewInt(1), 256+uint(i))
 		var back prover.Proof
-		err := json.Unmarshal(coordsDoc(c), &back)
+		err := safeUnmarshal(coordsDoc(c), &back)
+		if isPanic(err) {
+			run.Violate(fmt.Sprintf("C10/overwide/%d/panic", i), "proof decoder panics on a coordinate wider than 32 bytes: "+err.Error(), nil)
+		}
 		if err == nil && ref.GetPoints(back.Proof).Equal(proofs[0].pt) {
 			run.Violate(fmt.Sprintf("C10/overwide/%d", i), "a coordinate wider than 32 bytes was silently truncated to a valid proof", nil)
 		}
